@@ -109,7 +109,7 @@ def linecol_to_offset(text, line, col):
         if ch == '\r' and i + 1 < n and text[i + 1] == '\n':
             i += 2
             cur += 1
-        elif ch in '\n\r  ':
+        elif ch in '\n\r\u2028\u2029':
             i += 1
             cur += 1
         else:
@@ -131,7 +131,7 @@ def offset_to_linecol(text, off):
             i += 2
             line += 1
             start = i
-        elif ch in '\n\r  ':
+        elif ch in '\n\r\u2028\u2029':
             i += 1
             line += 1
             start = i
